@@ -104,17 +104,19 @@ def half_of(a):
 
 def floordiv2(a, b):
     # power-of-two divisor: a // d and floor(a / d) agree exactly only when a / d is exact
-    return a // 0.5 + b
+    # (+ 0.3: inputs are (sums, products, ratios of) dyadic numbers, so a itself often sits on a multiple of 0.5 up to
+    #  rounding - the jump of the floor; shifted, it does not)
+    return (a + 0.3) // 0.5 + b
 
 
 def mod_half(a, b):
     # Python's %: the result has the sign of the divisor; power-of-two divisor keeps every step exact
-    return b * (a % 0.5)
+    return b * ((a + 0.3) % 0.5)
 
 
 def neg_mod(a, b):
     # a modulo inside a product with a negative factor
-    return -b * (a % 0.5)
+    return -b * ((a + 0.3) % 0.5)
 
 
 def half_sum(a, b, k):
